@@ -45,14 +45,7 @@ def forall(names, body_fn):
     return z3.ForAll(vs, body_fn(*vs))
 
 
-def qforall(vs, body, patterns=None):
-    """ForAll with explicit triggers where z3 accepts them (a trigger may not contain ite)."""
-    if patterns:
-        try:
-            return z3.ForAll(vs, body, patterns=patterns)
-        except z3.Z3Exception:
-            pass
-    return z3.ForAll(vs, body)
+from pyvc.base import qforall  # noqa: E402,F401
 
 
 def dom(st, d):
